@@ -71,10 +71,19 @@ pub fn emit(out: &mut Out, worker: &mut Worker, text: &str, rng: &mut Rng, thoro
                     ilines.push(format!("{} err {} {}", k, e.laidx(w.len()), e.state));
                     accepted.push(0);
                     n_err += 1;
-                    if prop == "C04" && w.len() <= 8 && n_rec < rec_budget && n_slow + n_hang < 2 {
+                    // C01 asks only that a non-sentence is reported as one with recovery on too (a few
+                    // inputs per grammar); C04 also where
+                    let rec_cap = if prop == "C04" { rec_budget } else if prop == "C01" { rec_budget / 3 + 1 } else { 0 };
+                    if w.len() <= 8 && n_rec < rec_cap && n_slow + n_hang < 2 {
                         // with recovery on, the first reported error is at that same lexeme, in that state
                         // (killable worker: the recovery loop has no bound of its own)
                         match worker.parse(text, w, true, None, std::time::Duration::from_millis(2500)) {
+                            WResult::Ok(p2) if p2.errors.is_empty() => {
+                                // however long the recoverer searched: no error at all for a non-sentence
+                                hfail.get_or_insert(format!(
+                                    "recovery on: no error is reported for the non-sentence {:?} (value={}); recovery off reports lexeme {} state {}",
+                                    w, p2.tree.is_some(), e.laidx(w.len()), e.state));
+                            }
                             WResult::Ok(p2) if p2.wall_ms < 450 => {
                                 n_rec += 1;
                                 match p2.errors.first() {
